@@ -7,6 +7,7 @@ requirements.
     pkg-config (see c17b in this module).
 """
 import os
+import posixpath
 
 from hypothesis import strategies as st
 
@@ -228,6 +229,14 @@ def pc_cases(draw):
         }
         if deps[name]['public'] is None and deps[name]['private'] is None:
             deps[name]['public'] = []
+        if draw(st.integers(0, 2)) == 0:
+            # constrained from both lists by bounds of the same direction:
+            # the two merge into one specifier
+            fam = draw(st.sampled_from([('>=', '>'), ('<=', '<')]))
+            deps[name]['public'] = [(draw(st.sampled_from(fam)),
+                                     draw(st.sampled_from(LATTICE)))]
+            deps[name]['private'] = [(draw(st.sampled_from(fam)),
+                                      draw(st.sampled_from(LATTICE)))]
     return {
         'mode': mode, 'auto_fill': draw(st.booleans()),
         'incdirs': draw(st.lists(st.sampled_from(INC_NAMES), min_size=1,
@@ -237,6 +246,10 @@ def pc_cases(draw):
         'link_options': draw(st.lists(st.sampled_from(LOPT_POOL), max_size=1)),
         'private_static_dep': draw(st.booleans()),
         'version': draw(st.sampled_from(['1.0', '2.3.4'])),
+        # installation prefix (a value of the .pc file's variables) and the
+        # library's sub-directory below libdir
+        'prefix': draw(st.sampled_from(['pfx', 'my pfx'])),
+        'libsub': draw(st.sampled_from(['', '', 'sub'])),
         'deps': deps,
     }
 
@@ -258,11 +271,13 @@ def render_pc(case, src, depdir):
       '{return 2 + bar();}\n')
     if case['private_static_dep']:
         L.append("bar = static_library('bar', ['bar.c'])")
-        L.append("foo = library('foo', ['foo.c'], libs=[bar])")
+        L.append("foo = library({!r}, ['foo.c'], libs=[bar])".format(
+            posixpath.join(case.get('libsub', ''), 'foo')))
     else:
         w(os.path.join(src, 'foo.c'),
           'int foo(void){return 42;}\n')
-        L.append("foo = library('foo', ['foo.c'])")
+        L.append("foo = library({!r}, ['foo.c'])".format(
+            posixpath.join(case.get('libsub', ''), 'foo')))
     incs = ', '.join('inc{}'.format(i) for i in range(len(case['incdirs'])))
     req = [(n, _spec_str(d['public'])) if d['public'] else n
            for n, d in case['deps'].items() if d['public'] is not None]
@@ -284,6 +299,11 @@ def render_pc(case, src, depdir):
     if reqp:
         kw.append('requires_private={!r}'.format(reqp))
     L.append("pkg_config('c17pkg', {})".format(', '.join(kw)))
+    if req:
+        # a second package declared later names the same public requirements:
+        # what the first call did with them must not leak into this one
+        L.append("pkg_config('c17second', version='1.0', includes=[inc0], "
+                 "libs=[foo], requires={!r})".format(req))
     w(os.path.join(src, 'build.bfg'), '\n'.join(L) + '\n')
     for n, d in case['deps'].items():
         w(os.path.join(depdir, n + '.pc'),
@@ -359,6 +379,8 @@ def prop_pcfile(rec):
                 'auto_fill' if case['auto_fill'] else 'explicit'}
         if case['deps']:
             labs.add('has-requires')
+        if any(d['public'] and d['private'] for d in case['deps'].values()):
+            labs.add('dependency-in-both-lists')
         if any(' ' in o or '$' in o or "'" in o or '"' in o
                for o in case['options'] + case['incdirs']):
             labs.add('special-chars')
@@ -373,7 +395,8 @@ def prop_pcfile(rec):
             src = os.path.join(tmp, 'src')
             bld = os.path.join(tmp, 'bld')
             depdir = os.path.join(tmp, 'deps')
-            prefix = os.path.join(tmp, 'pfx')
+            prefix = os.path.join(tmp, case.get('prefix', 'pfx'))
+            libsub = case.get('libsub', '')
             os.makedirs(src)
             os.makedirs(depdir)
             render_pc(case, src, depdir)
@@ -405,6 +428,41 @@ def prop_pcfile(rec):
                     return
                 raise Violation('pc/configure-failed', r.err.strip()[-700:],
                                 case)
+            # the second package's Requires line, read directly: for every
+            # dependency exactly the versions its own requirement admits
+            pc2 = os.path.join(bld, 'pkgconfig', 'c17second.pc')
+            pub = {m: d['public'] for m, d in case['deps'].items()
+                   if d['public'] is not None}
+            if pub and os.path.exists(pc2):
+                written = {}
+                with open(pc2) as f:
+                    for line in f:
+                        if line.startswith('Requires:'):
+                            for item in line[9:].split(','):
+                                w_ = item.split()
+                                if not w_:
+                                    continue
+                                written.setdefault(w_[0], [])
+                                if len(w_) == 3:
+                                    written[w_[0]].append(
+                                        ('==' if w_[1] == '=' else w_[1],
+                                         w_[2]))
+                for m, sp in pub.items():
+                    if m not in written:
+                        raise Violation('pc/second-package/requires',
+                                        'c17second.pc does not require {}'
+                                        .format(m), case)
+                    for v in sample_points(allspecs[m]):
+                        if member(sp, v) != member(written[m], v):
+                            raise Violation(
+                                'pc/second-package/requires', 'c17second '
+                                'declares {} {} but its .pc file says {!r}: '
+                                'version {} is {} by the script and {} by the '
+                                'file'.format(
+                                    m, _spec_str(sp), written[m], v,
+                                    'admitted' if member(sp, v) else
+                                    'excluded', 'admitted' if member(
+                                        written[m], v) else 'excluded'), case)
             b = sandbox.run_make(bld, env, ['all'])
             if b.rc != 0:
                 raise Violation('pc/build-failed',
@@ -416,11 +474,11 @@ def prop_pcfile(rec):
             variants = [
                 ('uninstalled', [os.path.join(bld, 'pkgconfig'), depdir],
                  False, [os.path.join(src, d) for d in case['incdirs']],
-                 bld),
+                 os.path.join(bld, libsub)),
                 ('installed', [os.path.join(prefix, 'lib', 'pkgconfig'),
                                depdir], True,
-                 [os.path.join(prefix, 'include')], os.path.join(prefix,
-                                                                 'lib')),
+                 [os.path.join(prefix, 'include')],
+                 os.path.join(prefix, 'lib', libsub)),
             ]
             for what, pcpath, dis, incdirs, libdir in variants:
                 rc, out, err = pkgconf(['--cflags', 'c17pkg'], pcpath, dis)
@@ -534,6 +592,26 @@ def prop_pcfile(rec):
                         not s2 or member(s2, case['deps'][m]['version'])
                         for m, s2 in allspecs.items() if m != n)
                     want = (not sp or member(sp, v)) and others_ok
+                    pub = {m: d['public'] for m, d in case['deps'].items()
+                           if d['public'] is not None}
+                    if pub:
+                        rc2, _, err2 = pkgconf(
+                            ['--exists', 'c17second'],
+                            [os.path.join(bld, 'pkgconfig'), depdir])
+                        want2 = all(
+                            not s2 or member(s2, v if m == n else
+                                             case['deps'][m]['version'])
+                            for m, s2 in pub.items())
+                        if (rc2 == 0) != want2:
+                            raise Violation(
+                                'pc/requires-version/second-package',
+                                'with {} at version {} pkg-config --exists '
+                                'c17second {} but the requirements declared '
+                                'for it ({}) say {}'.format(
+                                    n, v, 'succeeds' if rc2 == 0 else 'fails',
+                                    {m: _spec_str(s2)
+                                     for m, s2 in pub.items()},
+                                    'accept' if want2 else 'reject'), case)
                     if (rc == 0) != want:
                         raise Violation(
                             'pc/requires-version', 'with {} at version {} '
